@@ -92,6 +92,7 @@ pub fn profile_farm() -> Profile {
             ("fm_cfg", 2),
             ("donate", 1),
             ("freeze", 1),
+            ("dry_claims", 3),
         ]),
         steps: (40, 110),
         fault_pct: 3,
@@ -1766,6 +1767,7 @@ impl Gen {
             "em_cfg" => self.gen_em_cfg(c),
             "freeze" => self.gen_freeze(c),
             "audit" => Op::Audit,
+            "dry_claims" => Op::DryClaims,
             "epoch_probe" => Op::EpochProbe,
             "epoch_new" => self.gen_epoch_new(c),
             _ => Op::Noop,
